@@ -14,7 +14,8 @@ Import ListNotations.
 Open Scope N_scope.
 
 (* ---------- configuration, calls, receivers, state ---------- *)
-Record cfg := mkcfg { dialT : N; writeT : N; readT : N; qcap : N; qmax : Z (* ObjQueueMax *) }.
+Record cfg := mkcfg { dialT : N; writeT : N; readT : N; qcap : N; qmax : Z (* ObjQueueMax *);
+  idleT : N (* client idle timeout: the sender goroutine closes a connection nothing was written to for longer *) }.
 
 (* rtimer.After(T): the wheel ticks every T/accuracy; the returned slot closes between T - T/accuracy and T *)
 Definition lo (T : N) : N := T - T / c_rtimer_accuracy.
@@ -43,13 +44,18 @@ Record call := mkcall {
 Inductive rpc := RNew | RFound (j : nat) (* holds the channel of call j, blocked in the send/timer select *) | RDone.
 Record rcv := mkrcv { r_id : N; r_pay : N; r_pc : rpc; r_t0 : N }.
 
+(* bookkeeping of transport.connection: idleTime, invokeNum (writes minus packets received; it is never reset), and
+   two ghosts: when the current connection was established (phase of the sender's one-second ticker), how many were *)
+Record transp := mktr { idle_since : N; tinv : Z; conn_t : N; conns : N }.
+
 Record state := mkst {
   now : N; calls : list call; rcvs : list rcv;
   queueLen : Z; invokeNum : Z; resp : list nat (* calls that have an entry in the pending-reply table *);
   conn_open : bool; lock : option nat; sendq : list nat; wire : list nat (* ghost: requests written to the peer *);
-  sent : list (N * N) (* ghost: packets the peer emitted *) }.
+  sent : list (N * N) (* ghost: packets the peer emitted *);
+  tr : transp }.
 
-Definition init : state := mkst 0 [] [] 0%Z 0%Z [] false None [] [] [].
+Definition init : state := mkst 0 [] [] 0%Z 0%Z [] false None [] [] [] (mktr 0 0%Z 0 0).
 
 (* the request id of call i is i+1 (ids of outstanding calls are distinct and non-zero: C08) *)
 Definition id_of (i : nat) : N := N.of_nat (S i).
@@ -61,7 +67,8 @@ Inductive label :=
 | LDialOk (i : nat) | LDialFail (i : nat) | LDialTimeout (i : nat)
 | LEnq (i : nat) | LEnqTimeout (i : nat) | LCtxFire (i : nat) | LClean (i : nat) | LPost (i : nat)
 | LSendTake | LConnDown
-| LPeerPkt (id pay : N) | LLookup (r : nat) | LDeliver (r : nat) | LGiveUp (r : nat).
+| LPeerPkt (id pay : N) | LLookup (r : nat) | LDeliver (r : nat) | LGiveUp (r : nat)
+| LIdleClose.
 
 Fixpoint upd {A} (l : list A) (i : nat) (x : A) : list A :=
   match l, i with
@@ -91,9 +98,9 @@ Definition set_ret (k : call) (t : N) : call :=
   mkcall (k_ow k) (k_start k) (k_dl k) Returned (k_t0 k) (k_lockt k) (k_d k) (k_e k) (k_out k) t.
 
 Definition with_calls (s : state) (cs : list call) : state :=
-  mkst (now s) cs (rcvs s) (queueLen s) (invokeNum s) (resp s) (conn_open s) (lock s) (sendq s) (wire s) (sent s).
+  mkst (now s) cs (rcvs s) (queueLen s) (invokeNum s) (resp s) (conn_open s) (lock s) (sendq s) (wire s) (sent s) (tr s).
 Definition with_rcvs (s : state) (rs : list rcv) : state :=
-  mkst (now s) (calls s) rs (queueLen s) (invokeNum s) (resp s) (conn_open s) (lock s) (sendq s) (wire s) (sent s).
+  mkst (now s) (calls s) rs (queueLen s) (invokeNum s) (resp s) (conn_open s) (lock s) (sendq s) (wire s) (sent s) (tr s).
 
 Definition is_waiting (s : state) (j : nat) : bool :=
   match nth_error (calls s) j with Some k => match k_pc k with Waiting => true | _ => false end | None => false end.
@@ -121,19 +128,19 @@ Definition urgent (c : cfg) (s : state) : bool :=
 Definition step (c : cfg) (s : state) (l : label) : option state :=
   match l with
   | Tick => if urgent c s then None
-            else Some (mkst (now s + 1) (calls s) (rcvs s) (queueLen s) (invokeNum s) (resp s) (conn_open s) (lock s) (sendq s) (wire s) (sent s))
+            else Some (mkst (now s + 1) (calls s) (rcvs s) (queueLen s) (invokeNum s) (resp s) (conn_open s) (lock s) (sendq s) (wire s) (sent s) (tr s))
   | Start d ow => Some (with_calls s (calls s ++ [mkcall ow (now s) (now s + d) Init (now s) (now s) false false None 0]))
   | LPre i =>
       match nth_error (calls s) i with
       | Some k => match k_pc k with
-                  | Init => Some (mkst (now s) (upd (calls s) i (set_pc k Pre)) (rcvs s) (queueLen s) (invokeNum s + 1)%Z (resp s) (conn_open s) (lock s) (sendq s) (wire s) (sent s))
+                  | Init => Some (mkst (now s) (upd (calls s) i (set_pc k Pre)) (rcvs s) (queueLen s) (invokeNum s + 1)%Z (resp s) (conn_open s) (lock s) (sendq s) (wire s) (sent s) (tr s))
                   | _ => None end
       | None => None end
   | LReg i =>
       match nth_error (calls s) i with
       | Some k => match k_pc k with
                   | Pre => if (qmax c <? queueLen s)%Z then None
-                           else Some (mkst (now s) (upd (calls s) i (set_pc k Reg)) (rcvs s) (queueLen s + 1)%Z (invokeNum s) (i :: resp s) (conn_open s) (lock s) (sendq s) (wire s) (sent s))
+                           else Some (mkst (now s) (upd (calls s) i (set_pc k Reg)) (rcvs s) (queueLen s + 1)%Z (invokeNum s) (i :: resp s) (conn_open s) (lock s) (sendq s) (wire s) (sent s) (tr s))
                   | _ => None end
       | None => None end
   | LQueueFull i =>   (* "invoke queue is full": returns before anything is registered *)
@@ -150,26 +157,26 @@ Definition step (c : cfg) (s : state) (l : label) : option state :=
           match k_pc k with
           | Reg => if conn_open s
                    then Some (with_calls s (upd (calls s) i (set_lock k Enq (now s) false)))
-                   else Some (mkst (now s) (upd (calls s) i (set_lock k Dialing (now s) true)) (rcvs s) (queueLen s) (invokeNum s) (resp s) (conn_open s) (Some i) (sendq s) (wire s) (sent s))
+                   else Some (mkst (now s) (upd (calls s) i (set_lock k Dialing (now s) true)) (rcvs s) (queueLen s) (invokeNum s) (resp s) (conn_open s) (Some i) (sendq s) (wire s) (sent s) (tr s))
           | _ => None end
       | _, _ => None end
   | LDialOk i =>
       match nth_error (calls s) i with
       | Some k => match k_pc k with
-                  | Dialing => Some (mkst (now s) (upd (calls s) i (set_wait k Enq (now s))) (rcvs s) (queueLen s) (invokeNum s) (resp s) true None (sendq s) (wire s) (sent s))
+                  | Dialing => Some (mkst (now s) (upd (calls s) i (set_wait k Enq (now s))) (rcvs s) (queueLen s) (invokeNum s) (resp s) true None (sendq s) (wire s) (sent s) (mktr (now s) (tinv (tr s)) (now s) (conns (tr s) + 1)))
                   | _ => None end
       | None => None end
   | LDialFail i =>
       match nth_error (calls s) i with
       | Some k => match k_pc k with
-                  | Dialing => Some (mkst (now s) (upd (calls s) i (set_out k Error (k_e k))) (rcvs s) (queueLen s) (invokeNum s) (resp s) (conn_open s) None (sendq s) (wire s) (sent s))
+                  | Dialing => Some (mkst (now s) (upd (calls s) i (set_out k Error (k_e k))) (rcvs s) (queueLen s) (invokeNum s) (resp s) (conn_open s) None (sendq s) (wire s) (sent s) (tr s))
                   | _ => None end
       | None => None end
   | LDialTimeout i =>
       match nth_error (calls s) i with
       | Some k => match k_pc k with
                   | Dialing => if k_t0 k + dialT c <=? now s
-                               then Some (mkst (now s) (upd (calls s) i (set_out k Error (k_e k))) (rcvs s) (queueLen s) (invokeNum s) (resp s) (conn_open s) None (sendq s) (wire s) (sent s))
+                               then Some (mkst (now s) (upd (calls s) i (set_out k Error (k_e k))) (rcvs s) (queueLen s) (invokeNum s) (resp s) (conn_open s) None (sendq s) (wire s) (sent s) (tr s))
                                else None
                   | _ => None end
       | None => None end
@@ -177,7 +184,7 @@ Definition step (c : cfg) (s : state) (l : label) : option state :=
       match nth_error (calls s) i with
       | Some k => match k_pc k with
                   | Enq => if N.of_nat (length (sendq s)) <? qcap c
-                           then Some (mkst (now s) (upd (calls s) i (set_enq k (k_t0 k <? now s))) (rcvs s) (queueLen s) (invokeNum s) (resp s) (conn_open s) (lock s) (sendq s ++ [i]) (wire s) (sent s))
+                           then Some (mkst (now s) (upd (calls s) i (set_enq k (k_t0 k <? now s))) (rcvs s) (queueLen s) (invokeNum s) (resp s) (conn_open s) (lock s) (sendq s ++ [i]) (wire s) (sent s) (tr s))
                            else None
                   | _ => None end
       | None => None end
@@ -198,27 +205,27 @@ Definition step (c : cfg) (s : state) (l : label) : option state :=
   | LClean i =>
       match nth_error (calls s) i with
       | Some k => match k_pc k with
-                  | Done => Some (mkst (now s) (upd (calls s) i (set_pc k Cleaned)) (rcvs s) (queueLen s - 1)%Z (invokeNum s) (remove_nat i (resp s)) (conn_open s) (lock s) (sendq s) (wire s) (sent s))
+                  | Done => Some (mkst (now s) (upd (calls s) i (set_pc k Cleaned)) (rcvs s) (queueLen s - 1)%Z (invokeNum s) (remove_nat i (resp s)) (conn_open s) (lock s) (sendq s) (wire s) (sent s) (tr s))
                   | _ => None end
       | None => None end
   | LPost i =>
       match nth_error (calls s) i with
       | Some k => match k_pc k with
-                  | Cleaned => Some (mkst (now s) (upd (calls s) i (set_ret k (now s))) (rcvs s) (queueLen s) (invokeNum s - 1)%Z (resp s) (conn_open s) (lock s) (sendq s) (wire s) (sent s))
+                  | Cleaned => Some (mkst (now s) (upd (calls s) i (set_ret k (now s))) (rcvs s) (queueLen s) (invokeNum s - 1)%Z (resp s) (conn_open s) (lock s) (sendq s) (wire s) (sent s) (tr s))
                   | _ => None end
       | None => None end
   | LSendTake =>
       match sendq s with
       (* a sender goroutine takes the head of the queue and writes it; the goroutine of a lost connection may still be
          running (the connection flag is not consulted), whether the bytes reach the peer is the peer's business *)
-      | i :: q => Some (mkst (now s) (calls s) (rcvs s) (queueLen s) (invokeNum s) (resp s) (conn_open s) (lock s) q (i :: wire s) (sent s))
+      | i :: q => Some (mkst (now s) (calls s) (rcvs s) (queueLen s) (invokeNum s) (resp s) (conn_open s) (lock s) q (i :: wire s) (sent s) (mktr (now s) (tinv (tr s) + 1)%Z (conn_t (tr s)) (conns (tr s))))
       | [] => None end
   | LConnDown =>
       if conn_open s
-      then Some (mkst (now s) (calls s) (rcvs s) (queueLen s) (invokeNum s) (resp s) false (lock s) (sendq s) (wire s) (sent s))
+      then Some (mkst (now s) (calls s) (rcvs s) (queueLen s) (invokeNum s) (resp s) false (lock s) (sendq s) (wire s) (sent s) (tr s))
       else None
   | LPeerPkt id pay =>
-      Some (mkst (now s) (calls s) (rcvs s ++ [mkrcv id pay RNew 0]) (queueLen s) (invokeNum s) (resp s) (conn_open s) (lock s) (sendq s) (wire s) ((id, pay) :: sent s))
+      Some (mkst (now s) (calls s) (rcvs s ++ [mkrcv id pay RNew 0]) (queueLen s) (invokeNum s) (resp s) (conn_open s) (lock s) (sendq s) (wire s) ((id, pay) :: sent s) (mktr (idle_since (tr s)) (tinv (tr s) - 1)%Z (conn_t (tr s)) (conns (tr s))))
   | LLookup r =>
       match nth_error (rcvs s) r with
       | Some x => match r_pc x with
@@ -237,7 +244,7 @@ Definition step (c : cfg) (s : state) (l : label) : option state :=
                                 | Some k => match k_pc k with
                                             | Waiting => Some (mkst (now s) (upd (calls s) j (set_out k (Reply (r_pay x)) (k_e k)))
                                                                  (upd (rcvs s) r (mkrcv (r_id x) (r_pay x) RDone (r_t0 x)))
-                                                                 (queueLen s) (invokeNum s) (resp s) (conn_open s) (lock s) (sendq s) (wire s) (sent s))
+                                                                 (queueLen s) (invokeNum s) (resp s) (conn_open s) (lock s) (sendq s) (wire s) (sent s) (tr s))
                                             | _ => None end
                                 | None => None end
                   | _ => None end
@@ -250,6 +257,14 @@ Definition step (c : cfg) (s : state) (l : label) : option state :=
                                 else None
                   | _ => None end
       | None => None end
+  | LIdleClose =>
+      (* the sender goroutine's idle check: under connLock (so nobody may be dialling), nothing in flight on the transport,
+         nothing written for longer than the idle timeout: the connection is closed and connLock released again *)
+      match lock s with
+      | None => if conn_open s && (tinv (tr s) =? 0)%Z && (idle_since (tr s) + idleT c <? now s)
+                then Some (mkst (now s) (calls s) (rcvs s) (queueLen s) (invokeNum s) (resp s) false (lock s) (sendq s) (wire s) (sent s) (tr s))
+                else None
+      | Some _ => None end
   end.
 
 Fixpoint run (c : cfg) (s : state) (ls : list label) : option state :=
@@ -260,14 +275,17 @@ Fixpoint run (c : cfg) (s : state) (ls : list label) : option state :=
 
 (* ---------- canonical run of a fault script (used by the correspondence) ---------- *)
 Inductive connmode := CAccept | CRefuse | CStall | CAcceptClose | CNoRead
-| CNoReadEarly (t : N) (* never reads; t after accepting it sends a reply for every request id it expects *).
+| CNoReadEarly (t : N) (* never reads; t after accepting it sends a reply for every request id it expects *)
+| CSlowAccept (h : N) (* connection establishment (TCP connect + TLS handshake, both inside the dial step and under
+                         DialTimeout) completes h after it began *).
 Definition early_pay : N := 3931302481.
 (* what the peer does with the n-th request it reads: an unsolicited packet first, the proper reply after a delay,
    the reply twice, take the connection down *)
 Record act := mkact { a_junk : bool; a_reply : option N; a_dup : bool; a_down : bool }.
 
 Record scen := mkscen {
-  sc_cfg : cfg; sc_conn : connmode; sc_acts : list act; sc_callers : nat; sc_calls : nat; sc_eff : N; sc_gap : N;
+  sc_cfg : cfg; sc_conn : connmode; sc_acts : list act; sc_callers : nat; sc_calls : nat; sc_eff : N;
+  sc_gaps : list N (* pause after the j-th call of a sequential caller; the last one repeats *);
   sc_oneway : bool;
   sc_prime : bool (* concurrent callers only: one call alone first, the callers start when it has returned *) }.
 
@@ -313,7 +331,7 @@ Definition want_start (sc : scen) (s : state) : bool :=
     match n with
     | O => true
     | S m => match nth_error (calls s) m with
-             | Some k => match k_pc k with Returned => k_ret k + sc_gap sc <=? now s | _ => false end
+             | Some k => match k_pc k with Returned => k_ret k + nth_last (sc_gaps sc) m 0 <=? now s | _ => false end
              | None => false end
     end
   else false.
@@ -330,6 +348,14 @@ Definition rcv_label (s : state) (r : nat) (x : rcv) : label :=
   | RFound j => if is_waiting s j then LDeliver r else LGiveUp r
   | RDone => Tick
   end.
+
+(* the sender's ticker fires every second (100 units) after the connection was established *)
+Definition idle_or_tick (c : cfg) (s : state) : label :=
+  match lock s with
+  | None => if conn_open s && (tinv (tr s) =? 0)%Z && (idle_since (tr s) + idleT c <? now s)
+               && (conn_t (tr s) <? now s) && ((now s - conn_t (tr s)) mod 100 =? 0)
+            then LIdleClose else Tick
+  | Some _ => Tick end.
 
 Definition due (now : N) (p : N * N * N) : bool := let '(t, _, _) := p in t <=? now.
 
@@ -348,13 +374,19 @@ Definition sched (sc : scen) (s : state) (e : env) : label * env :=
   | Some (r, x) => (rcv_label s r x, e)
   | None =>
   (* the peer's side of connection establishment *)
-  match find_idx (fun k => match k_pc k with Dialing => true | _ => false end) (calls s) 0, sc_conn sc with
-  | Some (i, _), CRefuse => (LDialFail i, e)
-  | Some (i, _), CAccept | Some (i, _), CNoRead => (LDialOk i, e)
-  | Some (i, _), CNoReadEarly t =>
-      (LDialOk i, mkenv (e_pend e ++ map (fun j => (now s + t, id_of j, early_pay)) (seq 0 (expected_calls sc))) 0)
-  | Some (i, _), CAcceptClose => (LDialOk i, mkenv (e_pend e) 1)
-  | _, _ =>
+  let dial_env : option (label * env) :=
+    match find_idx (fun k => match k_pc k with Dialing => true | _ => false end) (calls s) 0, sc_conn sc with
+    | Some (i, _), CRefuse => Some (LDialFail i, e)
+    | Some (i, _), CAccept | Some (i, _), CNoRead => Some (LDialOk i, e)
+    | Some (i, _), CNoReadEarly t =>
+        Some (LDialOk i, mkenv (e_pend e ++ map (fun j => (now s + t, id_of j, early_pay)) (seq 0 (expected_calls sc))) 0)
+    | Some (i, _), CAcceptClose => Some (LDialOk i, mkenv (e_pend e) 1)
+    | Some (i, k), CSlowAccept h => if (k_t0 k + h <=? now s) && (h <? dialT c) then Some (LDialOk i, e) else None
+    | _, _ => None
+    end in
+  match dial_env with
+  | Some r => r
+  | None =>
   (* the sender goroutine writes the head of the queue; the peer reads it and follows its script *)
   let can_take := match sc_conn sc with CNoRead | CNoReadEarly _ => match wire s with [] => true | _ => false end | _ => true end in
   match sendq s with
@@ -369,9 +401,9 @@ Definition sched (sc : scen) (s : state) (e : env) : label * env :=
         let junk := if a_junk a then [(now s, 1000000 + id_of i, 0)] else [] in
         (LSendTake, mkenv (e_pend e ++ junk ++ rep) (if a_down a then 1 else 0))
       else
-        match find_idx (call_urgent c s) (calls s) 0 with Some (i, k) => (call_label c s i k, e) | None => (Tick, e) end
+        match find_idx (call_urgent c s) (calls s) 0 with Some (i, k) => (call_label c s i k, e) | None => (idle_or_tick c s, e) end
   | [] =>
-      match find_idx (call_urgent c s) (calls s) 0 with Some (i, k) => (call_label c s i k, e) | None => (Tick, e) end
+      match find_idx (call_urgent c s) (calls s) 0 with Some (i, k) => (call_label c s i k, e) | None => (idle_or_tick c s, e) end
   end end end end end.
 
 Definition finished (sc : scen) (s : state) (e : env) : bool :=
@@ -548,14 +580,16 @@ Definition model_held (sc : scen) : N :=
 
 (* ---------- a correspondence case ---------- *)
 Record c09case := mkcase {
-  cc_cfg : cfg; cc_conn : connmode; cc_acts : list act; cc_callers : nat; cc_calls : nat; cc_eff : N; cc_gap : N;
+  cc_cfg : cfg; cc_conn : connmode; cc_acts : list act; cc_callers : nat; cc_calls : nat; cc_eff : N; cc_gaps : list N;
   cc_oneway : bool; cc_prime : bool; cc_predict : bool;
+  cc_conns : option N (* connections the peer accepted, where the script makes that number definite (idle periods) *);
   cc_held : option N (* largest number of reply receivers seen blocked at once, when sampled *); cc_obs : list (ocls * N); cc_events : list event; cc_final : N * N * N }.
 
 Definition c09_check (x : c09case) : bool :=
-  let sc := mkscen (cc_cfg x) (cc_conn x) (cc_acts x) (cc_callers x) (cc_calls x) (cc_eff x) (cc_gap x) (cc_oneway x) (cc_prime x) in
+  let sc := mkscen (cc_cfg x) (cc_conn x) (cc_acts x) (cc_callers x) (cc_calls x) (cc_eff x) (cc_gaps x) (cc_oneway x) (cc_prime x) in
   (if cc_predict x then predicted sc (cc_obs x) && model_trace_ok sc &&
-                        match cc_held x with Some h => model_held sc <=? h | None => true end
+                        match cc_held x with Some h => model_held sc <=? h | None => true end &&
+                        match cc_conns x with Some n => (let '(s, _, _) := canonical sc in conns (tr s)) =? n | None => true end
    else true)
   && accepts (cc_events x)
   && (let '(q, n, p) := cc_final x in (q =? 0) && (n =? 0) && (p =? 0)).
